@@ -74,6 +74,18 @@ func genCase(t *rapid.T) Case {
 
 	// skeleton first: kinds, generations, filters, indirection flags
 	needFlate, needCrypt, cryptInd := false, false, false
+	if c.Writer == "lib" && sv >= pdf.V1_4 {
+		enc := c.Src.UserPW != "" || c.Src.OwnerPW != ""
+		switch rapid.IntRange(0, 5).Draw(t, "srcmeta") {
+		case 0:
+			c.SrcMeta = 1
+			needFlate = true
+		case 1, 2:
+			if !enc || sv >= pdf.V1_6 {
+				c.SrcMeta = 2
+			}
+		}
+	}
 	for i := range c.Nodes {
 		nd := &c.Nodes[i]
 		nd.Num = uint32(firstNodeNum + i)
@@ -139,10 +151,11 @@ func genCase(t *rapid.T) Case {
 	if needFlate && wprog.Versions[c.Tgt.Version] < pdf.V1_2 {
 		c.Tgt.Version = 2 + c.Tgt.Version%7
 	}
-	// likewise a stream with a /Crypt filter and a target before PDF 1.5
-	if needCrypt && wprog.Versions[c.Tgt.Version] < pdf.V1_5 {
-		c.Tgt.Version = 5 + c.Tgt.Version%4
-	}
+	// A stream with an explicit /Crypt /Identity filter is copied into
+	// targets of every version: the Writer accepts the entry in the copied
+	// dictionary below PDF 1.5 as well and honours it (no document-level
+	// encryption), and the Reader decodes it there.
+	_ = needCrypt
 
 	// the pool of reference numbers: nodes (each twice), auxiliary objects
 	// that exist, numbers that do not, wrong generations
@@ -167,6 +180,9 @@ func genCase(t *rapid.T) Case {
 			sort.Slice(nums, func(a, b int) bool { return nums[a] < nums[b] })
 			pool = append(pool, nums...)
 		}
+	}
+	if c.SrcMeta != 0 {
+		pool = append(pool, metaNum, metaNum)
 	}
 	if cryptInd {
 		pool = append(pool, cryptNameNum) // the object holding the name /Crypt may be shared with ordinary references
